@@ -100,7 +100,20 @@ DetVerdict(tr, run) ==
    ELSE IF BnBitLen(run.val) # tr.n \/ ~BnIsOdd(run.val) THEN "result out of range"
    ELSE IF run.exc2 # run.exc \/ run.val2 # run.val \/ run.drawn2 # run.drawn THEN "not a deterministic function of the tape"
    ELSE "ok"
+\* randrange / randint outside the ordinary domain (descending steps, step 0, empty ranges): the documentation is range(start, stop, step);
+\* the library refuses descending steps altogether.  Either a refusal (ValueError), or - if a value is returned - an element of
+\* Python's range(start, stop, step); an empty range can only be refused.
+EdgeCount(a, b, st) == IF st > 0 THEN (IF b > a THEN ((b - a) + (st - 1)) \div st ELSE 0)
+                       ELSE IF st < 0 THEN (IF a > b THEN ((a - b) + ((0 - st) - 1)) \div (0 - st) ELSE 0) ELSE 0
+EdgeVerdict(tr, run) ==
+   LET n == EdgeCount(tr.p1, tr.p2, tr.p3) IN
+   IF run.exc = "ValueError" THEN "ok"
+   ELSE IF run.exc # "none" THEN "sampler raised " \o run.exc
+   ELSE IF n = 0 THEN "returned a value for an empty range"
+   ELSE IF ~\E j \in 0..(n - 1) : run.val = tr.p1 + (j * tr.p3) THEN "result out of range"
+   ELSE "ok"
 RunVerdict(tr, run) == CASE tr.family = "small" -> SmallVerdict(tr, run)
+                         [] tr.family = "edge" -> EdgeVerdict(tr, run)
                          [] tr.family = "perm" -> PermVerdict(tr, run)
                          [] tr.family = "big" -> BigVerdict(tr, run)
                          [] tr.family = "det" -> DetVerdict(tr, run)
